@@ -61,6 +61,10 @@ func init() {
 	set("C07", func(c *propCfg) { c.StmtThorough = []string{"spine/entity_local.go"} })
 	set("C09", func(c *propCfg) { c.StmtThorough = []string{"spine/binding_manager.go"} })
 	set("C12", func(c *propCfg) { c.StmtThorough = []string{"spine/feature_local.go"} })
+	set("C14", func(c *propCfg) {
+		c.StmtThorough = []string{"spine/feature_local.go"}
+		c.StmtQuick = []string{"spine/feature_local.go"}
+	})
 	set("C13", func(c *propCfg) {
 		c.StmtThorough = []string{"spine/send.go"}
 		c.StmtQuick = []string{"spine/send.go"}
